@@ -229,3 +229,51 @@ impl BTree<(), VarLabel> {
         }
 //%% end
 }
+
+// ---- vtrees built from a variable order: right_linear / left_linear / even_split (src/repr/vtree.rs) ----
+/// 2^k
+pub open spec fn p2(k: nat) -> nat decreases k { if k == 0 { 1 } else { 2 * p2((k - 1) as nat) } }
+impl VTree {
+// R-slice-pattern: `[x] =>` -> length guard + element binding; `[cur, rest @ ..] =>` / `[rest @ .., last] =>` -> guard + bindings through
+// slice_subrange; `[] => panic!(..)` -> the unreachable arm under the precondition "the order is not empty"
+//%% extract src/repr/vtree.rs :: impl VTree :: fn right_linear
+//%% @ret r
+//%% @rewrite 1 /\[x\] => BTree::Leaf\(\*x\),/ => _ if order.len() == 1 => { let x = &order[0]; BTree::Leaf(*x) }
+//%% @rewrite 1 /\[cur, rest @ \.\.\] => \{/ => _ if order.len() >= 2 => { let cur = &order[0]; let rest = vstd::slice::slice_subrange(order, 1, order.len());
+//%% @rewrite 1 /\[\] => panic!\("invalid right_linear on empty list"\),/ => _ => vstd::pervasive::unreached(),
+//%% @spec
+        requires order@.len() >= 1,
+        ensures vleaves(r) == order@,
+        decreases order@.len(),
+//%% @entry
+        proof { reveal_with_fuel(vleaves, 3); if order@.len() >= 2 { assert(order@ =~= seq![order@[0]] + order@.subrange(1, order@.len() as int)); } else { assert(order@ =~= seq![order@[0]]); } }
+//%% end
+
+//%% extract src/repr/vtree.rs :: impl VTree :: fn left_linear
+//%% @ret r
+//%% @rewrite 1 /\[x\] => BTree::Leaf\(\*x\),/ => _ if order.len() == 1 => { let x = &order[0]; BTree::Leaf(*x) }
+//%% @rewrite 1 /\[rest @ \.\., last\] => \{/ => _ if order.len() >= 2 => { let last = &order[order.len() - 1]; let rest = vstd::slice::slice_subrange(order, 0, order.len() - 1);
+//%% @rewrite 1 /\[\] => panic!\("invalid left_linear on empty list"\),/ => _ => vstd::pervasive::unreached(),
+//%% @spec
+        requires order@.len() >= 1,
+        ensures vleaves(r) == order@,
+        decreases order@.len(),
+//%% @entry
+        proof { reveal_with_fuel(vleaves, 3); if order@.len() >= 2 { assert(order@ =~= order@.subrange(0, order@.len() - 1) + seq![order@[order@.len() - 1]]); } else { assert(order@ =~= seq![order@[0]]); } }
+//%% end
+
+//%% extract src/repr/vtree.rs :: impl VTree :: fn even_split
+//%% @ret r
+//%% @spec
+        // (with fewer variables than 2^num_splits some half becomes empty and right_linear panics)
+        requires order@.len() >= p2(num_splits as nat),
+        ensures vleaves(r) == order@,
+        decreases num_splits,
+//%% @entry
+        proof {
+            let h = order@.len() / 2;
+            assert(order@ =~= order@.subrange(0, h as int) + order@.subrange(h as int, order@.len() as int));
+            if num_splits > 0 { assert(p2(num_splits as nat) == 2 * p2((num_splits - 1) as nat)); }
+        }
+//%% end
+}
